@@ -148,12 +148,8 @@ rules:
           scheme: Bearer
   on_error:
     - error_handler: redirect
-      config:
-        to: http://login.local/x
-        code: 302
+      if: type(Error) == authentication_error
     - error_handler: www
-      config:
-        realm: r
 `
 
 // confuse replaces one node of a YAML document by a value of another kind.
@@ -270,9 +266,26 @@ func robustRuleSets(r *simcore.Run, w *worlds) {
 	defer target.Processor.OnDeleted(good)
 	n := 1 + s.Draw(4, "documents")
 	loaded := false
+	entryName := map[bool]string{true: "decision", false: "proxy"}[target == w.decision]
+	probes := []string{"/fuzz/1", "/fuzz/static", "/fuzz2/a/b", "/fuzz3/x/y"}
+	accepted := 0
+	var lastGood []string // answers of the probes after the last accepted version
+	observe := func() []string {
+		var out []string
+		for _, p := range probes {
+			ans, pan := w.send(entryName, p, map[string]string{})
+			out = append(out, fmt.Sprintf("%s -> %s panic=%v", p, ans.status, pan != nil))
+		}
+		return out
+	}
 	for i := 0; i < n && !r.Failed(); i++ {
 		doc, how := robustBaseRuleSet, "unchanged"
-		switch s.Draw(4, "corruption") {
+		switch s.Draw(7, "corruption") { // 5, 6: the valid document itself (first version, or an update to the same content)
+		case 4:
+			// well-formed, but not applicable: the last rule claims an expression the index refuses (owned by the keeper
+			// rule set, or not a valid expression), after the earlier rules were already applied to the working copy
+			bad := simcore.Pick(s, []string{"/keeper", "/fuzz3/*rest/more", "/fuzz/:other"}, "unapplicable-path")
+			doc, how = strings.Replace(doc, "      - path: /fuzz3/:a/:b\n", "      - path: /fuzz3/:a/:b\n      - path: "+bad+"\n", 1), "unapplicable path "+bad
 		case 0:
 			cut := s.Draw(len(doc), "truncate-at")
 			doc, how = doc[:cut], fmt.Sprintf("truncated at byte %d", cut)
@@ -290,6 +303,7 @@ func robustRuleSets(r *simcore.Run, w *worlds) {
 		}
 		r.Logf("rule set %d: %s", i, how)
 		r.Count("corruption:"+strings.SplitN(how, " ", 2)[0], 1)
+		acceptedBefore := accepted
 		guarded(r, "loading a rule set ("+how+")", func() {
 			rs, err := world.ParseRuleSet("fuzz", doc)
 			if err != nil {
@@ -303,17 +317,25 @@ func robustRuleSets(r *simcore.Run, w *worlds) {
 				err = target.Processor.OnCreated(rs)
 			}
 			if err != nil {
-				r.Logf("  factory/repository rejected it")
+				r.Logf("  factory/repository rejected it: %s", trunc(err.Error()))
 				r.Count("ruleset-rejected-by-factory", 1)
 				return
 			}
 			loaded = true
+			accepted++
 			r.Count("ruleset-accepted", 1)
 			// an accepted rule set must be executable without crashing
-			for _, p := range []string{"/fuzz/1", "/fuzz/static", "/fuzz2/a/b"} {
-				w.send(map[bool]string{true: "decision", false: "proxy"}[target == w.decision], p, map[string]string{})
-			}
+			lastGood = observe()
 		})
+		// a rejected new version leaves the loaded version in effect
+		if !r.Failed() && loaded && lastGood != nil {
+			now := observe()
+			if strings.Join(now, "; ") != strings.Join(lastGood, "; ") && !strings.Contains(how, "unchanged") {
+				if rejected := accepted == acceptedBefore; rejected {
+					r.Fail("previous-state-lost", "rejected-update", "after the rejected version (%s) the loaded version answers differently: %v, before: %v", how, now, lastGood)
+				}
+			}
+		}
 		// the previously loaded state stays in effect
 		if !r.Failed() {
 			ans, p := w.send(map[bool]string{true: "decision", false: "proxy"}[target == w.decision], "/keeper", map[string]string{})
